@@ -54,6 +54,8 @@ Checks(e) ==
     \* <<"spare", x, y, p, state before, application before, state after, application after>>
     [] e[1] = "spare" -> [UnrequestedCoreUntouched |-> <<e[5], e[6]>> = <<e[7], e[8]>>]
     \* tables minimised to the space the probe reported, and a machine that accepts every command, load
+    \* the pipeline may end with one of its documented errors (such runs produce no trace); anything else is judged
+    [] e[1] = "raise" -> [OnlyDocumentedErrors |-> FALSE]
     [] e[1] = "failed" -> [DeploymentCompletes |-> FALSE]
     [] e[1] = "done" -> [Closed |-> TRUE]
     [] OTHER -> [UnknownEvent |-> FALSE]
